@@ -501,7 +501,19 @@ fn translate_code(expr: ExprNodeId) -> ExprNodeId {
         Expr::Let(tp, val, then) => {
             let translated_val = translate_code(val);
             let translated_body = then.map(translate_code).unwrap_or_else(code_unit_expr);
-            translate_let_pattern(&tp.pat, translated_val, translated_body)
+            if pattern_has_record(&tp.pat) {
+                // A record pattern is data, like the patterns of a match: the
+                // quoted `let` itself is handed over as the template from which
+                // `code_let_pattern` takes the pattern as it is.
+                let template = Expr::Literal(Literal::Int(expr.0.data().as_ffi() as i64))
+                    .into_id_without_span();
+                make_apply(
+                    "code_let_pattern",
+                    vec![template, translated_val, translated_body],
+                )
+            } else {
+                translate_let_pattern(&tp.pat, translated_val, translated_body)
+            }
         }
 
         // -- LetRec ---------------------------------------------------------
@@ -741,7 +753,17 @@ fn pattern_to_symbol(pat: &Pattern) -> Symbol {
     }
 }
 
-/// Generate code combinator calls for a `let` binding with an arbitrary pattern.
+/// Whether a record pattern occurs anywhere in `pat`.
+fn pattern_has_record(pat: &Pattern) -> bool {
+    match pat {
+        Pattern::Record(_) => true,
+        Pattern::Tuple(pats) => pats.iter().any(pattern_has_record),
+        Pattern::Single(_) | Pattern::Placeholder | Pattern::Error => false,
+    }
+}
+
+/// Generate code combinator calls for a `let` binding with a pattern made of names,
+/// placeholders and tuples (a pattern that contains a record goes through `code_let_pattern`).
 ///
 /// For simple patterns (`Single`, `Placeholder`), emits `code_let(name, val, body)`.
 /// For tuple patterns, emits `code_let_tuple(names, val, body)` — but when sub-patterns
